@@ -206,7 +206,7 @@ PROPS["C05"] = dict(
             "valueless_compared", "valueless_visited", "swap_threw", "swap_with_valueless", "same_index_assignment_threw", "self_assignment", "self_swap",
             "three_variant_visit", "more_than_32_alternatives_dispatch", "constructor_threw", "moved_from_alternative",
             "unordered_values_compared", "assignment_switching_alternative_defaulted_or_trivial_set", "multi_visit_with_index_ge_32_not_last", "converting_assignment_threw_in_constructor",
-            "wide_last_alternative_held", "wide_valueless_reached", "assigned_from_const_rvalue_variant", "rvalue_variant_visited"],
+            "wide_last_alternative_held", "wide_valueless_reached", "assigned_from_const_rvalue_variant", "rvalue_variant_visited", "rvalue_variant_visited_as_second", "assigned_from_nonconst_lvalue_variant"],
     components=dict(real=["include/xtl/xvariant_impl.hpp (mpark variant: construction, assignment, emplace, swap, relational operators, switch-based visitation, hash)", "include/xtl/xvariant.hpp (xget)"],
                     stub=["lifetime-tracked alternative types with a fault point in every constructor and assignment", "recording visitors", "dirty, red-zoned arena memory under every variant"]),
     assumptions=["the table-based visitation path is compiled out on GCC/Clang in C++14 (MPARK_VARIANT_SWITCH_VISIT) and cannot be reached here",
